@@ -5,7 +5,7 @@ import Rio.Model.Filters
 -/
 namespace Rio
 
-inductive GitMode | dir | regular | executable | symlink | submodule | other
+inductive GitMode | dir | regular | deprecated | executable | symlink | submodule | other
 deriving DecidableEq, Repr, Inhabited
 
 structure GitEntry where
@@ -14,25 +14,45 @@ structure GitEntry where
   blob : Bytes          -- file content, or the link target for symlinks
 deriving DecidableEq, Repr, Inhabited
 
-/-- what one walked entry is placed as, before filters; `none` = panic ("unknown git filemode") -/
-def gitEntryMeta (e : GitEntry) : Option (Option Meta) :=
+/-- what placing one walked entry comes to: metadata, a refusal (`rio-ware-corrupt`), or a Go panic -/
+inductive GitRes (α : Type) | ok (a : α) | corrupt | panic
+deriving DecidableEq, Repr, Inhabited
+
+/-- what one walked entry is placed as, before filters.  An entry name that begins with `/` (a tree object
+    written by hand: go-git's walker joins names with `path.Join`, so only the first component can do it) is
+    refused before `fs.MustRelPath` sees it; a file mode outside the six go-git knows is refused.  `100664`
+    ("deprecated", group-writable, written by early gits) is a regular file. -/
+def gitEntryMeta (e : GitEntry) : GitRes Meta :=
+  if e.name.head? = some slash then .corrupt else
   match mustRel e.name with
-  | none => some none     -- `fs.MustRelPath` panics (cannot happen for go-git tree paths)
+  | none => .panic        -- `fs.MustRelPath` panics: shown unreachable in `C19_never_panics`
   | some name =>
     let base : Meta := { name := name, kind := .file, perms := 0, uid := 1000, gid := 1000, size := 0, linkname := [],
                          devmajor := 0, devminor := 0, mtime := defaultTime, xattrs := [] }
     match e.mode with
-    | .dir => some (some { base with kind := .dir, perms := 0o755 })
-    | .regular => some (some { base with kind := .file, perms := 0o644 })
-    | .executable => some (some { base with kind := .file, perms := 0o755 })
-    | .symlink => some (some { base with kind := .symlink, perms := 0o644, linkname := e.blob })
-    | .submodule => some (some { base with kind := .dir, perms := 0o755 })   -- as placed for a nested gitlink
-    | .other => none
+    | .dir => .ok { base with kind := .dir, perms := 0o755 }
+    | .regular => .ok { base with kind := .file, perms := 0o644 }
+    | .deprecated => .ok { base with kind := .file, perms := 0o644 }
+    | .executable => .ok { base with kind := .file, perms := 0o755 }
+    | .symlink => .ok { base with kind := .symlink, perms := 0o644, linkname := e.blob }
+    | .submodule => .ok { base with kind := .dir, perms := 0o755 }   -- as placed for a nested gitlink
+    | .other => .corrupt
 
-/-- the metadata list of a whole unpack: the conjured root, then every entry; `none` = panic -/
-def gitUnpackMetas (es : List GitEntry) : Option (List Meta) :=
-  match es.mapM (fun e => match gitEntryMeta e with | some (some m) => some m | _ => none) with
-  | none => none
-  | some ms => some (defaultDirMeta ⟨[], 0⟩ :: ms)
+/-- the entries in walk order, stopping at the first that is not placed -/
+def gitMetas : List GitEntry → GitRes (List Meta)
+  | [] => .ok []
+  | e :: es =>
+    match gitEntryMeta e with
+    | .corrupt => .corrupt
+    | .panic => .panic
+    | .ok m => match gitMetas es with
+      | .ok ms => .ok (m :: ms)
+      | r => r
+
+/-- the metadata list of a whole unpack: the conjured root, then every entry -/
+def gitUnpackMetas (es : List GitEntry) : GitRes (List Meta) :=
+  match gitMetas es with
+  | .ok ms => .ok (defaultDirMeta ⟨[], 0⟩ :: ms)
+  | r => r
 
 end Rio
